@@ -7,7 +7,6 @@
   `doneCount encs c` = number of leading PTDP encodings that fit completely into the first c bytes.
 -/
 import Acra.Lemmas.Chapter7Asm
-import Acra.Props.C10.Stream
 namespace Acra.Props.C10
 open Acra.Py Acra.Model.Chapter7 Acra.Lemmas.Chapter7 Acra.Gen.Chapter7
 open Acra.Spec.Ch7 (offset startsAux)
@@ -26,7 +25,7 @@ theorem decap_encap_ptdps (pkts : List Bytes) (L sid : Nat) (hL : 0 < L) (hL2 : 
          rem := some (((stream pkts).take (out.length * L)).drop
                   (((encs pkts).take (doneCount (encs pkts) (out.length * L))).flatten).length),
          first := decide (out.length = 0) }, none) := by
-  obtain ⟨cur', out', h', inv⟩ := encap_invariant pkts L sid hL
+  obtain ⟨cur', out', h', inv⟩ := encap_inv pkts L sid hL
   rw [h] at h'; injection h' with h'; injection h' with h1 h2; subst h1 h2
   have hlo := inv.lo
   have hout := inv.out_eq
